@@ -587,7 +587,7 @@ class StmtMixin:
     # ------------------------------------------------------------------ comprehensions
     def comprehension(self, node, fr, kind):
         if len(node.generators) != 1:
-            raise Untranslatable('nested comprehension')
+            return self.nested_comprehension(node, fr, kind)
         g = node.generators[0]
         if g.is_async:
             raise Untranslatable('async comprehension')
@@ -611,6 +611,38 @@ class StmtMixin:
         if k != 'symbolic':
             raise Untranslatable(f'comprehension over {k}')
         return self.lift_comprehension(node, g, fr, space, kind)
+
+    def nested_comprehension(self, node, fr, kind):
+        """several `for` clauses: supported when every iteration space has a known length (unrolled)"""
+        out = []
+
+        def rec(i, env):
+            if i == len(node.generators):
+                nfr = Frame(env, fr.globs, fr.qualname, fr.closure)
+                nfr.assigned_names = getattr(fr, 'assigned_names', set())
+                out.append(self.eval(node.elt, nfr))
+                return
+            g = node.generators[i]
+            nfr = Frame(dict(env), fr.globs, fr.qualname, fr.closure)
+            nfr.assigned_names = getattr(fr, 'assigned_names', set())
+            it = self.eval(g.iter, nfr)
+            k, space = self.iteration_space(it, nfr, node)
+            if k != 'concrete':
+                raise Untranslatable('nested comprehension over a sequence of unknown length')
+            for x in space:
+                e2 = dict(env)
+                f2 = Frame(e2, fr.globs, fr.qualname, fr.closure)
+                f2.assigned_names = getattr(fr, 'assigned_names', set())
+                self.assign(g.target, x, f2)
+                ok = True
+                for cond in g.ifs:
+                    if not self.truth(self.eval(cond, f2), 'comp-if'):
+                        ok = False
+                        break
+                if ok:
+                    rec(i + 1, e2)
+        rec(0, dict(fr.env))
+        return Box('list', items=out) if kind == 'list' else tuple(out)
 
 
 def _load(target):
